@@ -329,12 +329,12 @@ theorem fg_result (s : JobList) (index : Nat) (job : Job) (outcome : PState) (h 
 /-- ★ "If omitted, the built-in resumes the current job" (`bg.md`, `fg.md`), and an operand that is
     a job ID resumes the job `JobId::find` returns for it: with job control on, `bg` / `fg` without
     operands act on `current_job()`, with one job-ID operand on the job it designates -/
-theorem bg_fg_target (s : JobList) (outcome : PState) :
+theorem bg_fg_target (s : JobList) (inter : Bool) (outcome : PState) :
     (∀ i, s.currentJob = some i →
-      (bgBuiltin s true []).2 = (bgResume s i).2 ∧ (fgBuiltin s true outcome []).2 = (fgResume s i outcome).2) ∧
-    (s.currentJob = none → (bgBuiltin s true []).2 = s ∧ (fgBuiltin s true outcome []).2 = s) ∧
+      (bgBuiltin s true []).2 = (bgResume s i).2 ∧ (fgBuiltin s true inter outcome []).2 = (fgResume s i outcome).2) ∧
+    (s.currentJob = none → (bgBuiltin s true []).2 = s ∧ (fgBuiltin s true inter outcome []).2 = s) ∧
     (∀ op id i, op.head? = some '%' → parseJobId op = some id → id.find s = .ok i →
-      (bgBuiltin s true [op]).2 = (bgResume s i).2 ∧ (fgBuiltin s true outcome [op]).2 = (fgResume s i outcome).2) := by
+      (bgBuiltin s true [op]).2 = (bgResume s i).2 ∧ (fgBuiltin s true inter outcome [op]).2 = (fgResume s i outcome).2) := by
   refine ⟨?_, ?_, ?_⟩
   · intro i hi
     constructor
@@ -386,6 +386,173 @@ theorem amp_designates (s : JobList) (pid : Nat) (m i : Bool) (name : Str) (h : 
   · intro k j hk hp
     exact (consistent_of_inv s' hinv).pid_unique k idx j _ hk hget (by rw [hp]; rfl)
 
+/-! ### a foreground job that was suspended (`handle_job_status`) -/
+
+/-- ★ where `insert` puts a job that is already suspended (the doc comment of `JobList::insert`):
+    it becomes the current job iff there is no current job or the current job is not suspended;
+    otherwise the current job stays, and the new job becomes the previous job iff there is no
+    previous job or the previous job is not suspended; otherwise both stay.
+    (So the statement of docs/src/interactive/job_control.md "When a job is suspended, it becomes
+    the current job" holds for `update_status` — `update_suspends_current` — but NOT for a
+    foreground job suspended while another suspended job is the current job; see notes/C12.md.) -/
+theorem insert_suspended_selection (s : JobList) (job : Job) (h : Inv s)
+    (hpre : insertPre s job.pid = true) (hs : job.isSuspended = true) :
+    let idx := (s.insert job).1
+    let s' := (s.insert job).2
+    ((∀ c jc, s.currentJob = some c → s.get c = some jc → jc.isSuspended = false) → s'.currentJob = some idx) ∧
+    (∀ c jc, s.currentJob = some c → s.get c = some jc → jc.isSuspended = true →
+      s'.currentJob = some c ∧
+      ((∀ p jp, s.previousJob = some p → s.get p = some jp → jp.isSuspended = false) → s'.previousJob = some idx) ∧
+      (∀ p jp, s.previousJob = some p → s.get p = some jp → jp.isSuspended = true → s'.previousJob = some p)) := by
+  intro idx s'
+  obtain ⟨G, hold, hcur, hprev⟩ := insert_shape s job h hpre
+  obtain ⟨A, B⟩ := insert_sel_core (gets s.entries) (gets s'.entries) s.cur s.prev idx job G hold hs _ _
+    (exCur_eq s) (exPrev_eq s) s'.cur s'.prev hcur hprev
+  constructor
+  · intro hnc
+    have := A (by
+      intro jc hjc
+      exact hnc s.cur jc (by simp [JobList.currentJob, hjc]) hjc)
+    show (if (gets s'.entries s'.cur).isSome = true then some s'.cur else none) = some idx
+    rw [if_pos this.2.1, this.1]
+  · intro c jc hc hgc hsc
+    have hcc : c = s.cur := by
+      unfold JobList.currentJob at hc
+      split at hc
+      · cases hc; rfl
+      · cases hc
+    subst hcc
+    obtain ⟨b1, b2, b3, b4⟩ := B jc hgc hsc
+    have hcj : s'.currentJob = some s.cur := by
+      show (if (gets s'.entries s'.cur).isSome = true then some s'.cur else none) = some s.cur
+      rw [if_pos b2, b1]
+    refine ⟨hcj, ?_, ?_⟩
+    · intro hnp
+      have := b3 (by
+        intro jp hne hjp
+        exact hnp s.prev jp (by simp [JobList.previousJob, hne, hjp]) hjp)
+      show (if s'.prev ≠ s'.cur ∧ (gets s'.entries s'.prev).isSome = true then some s'.prev else none) = some idx
+      rw [if_pos ⟨this.2.1, this.2.2⟩, this.1]
+    · intro p jp hp hgp hsp
+      have hpp : p = s.prev ∧ s.prev ≠ s.cur := by
+        unfold JobList.previousJob at hp
+        split at hp
+        · rename_i hh; cases hp; exact ⟨rfl, hh.1⟩
+        · cases hp
+      obtain ⟨e, hne⟩ := hpp
+      subst e
+      have := b4 jp hne hgp hsp
+      show (if s'.prev ≠ s'.cur ∧ (gets s'.entries s'.prev).isSome = true then some s'.prev else none) = some s.prev
+      rw [if_pos ⟨this.2.1, this.2.2⟩, this.1]
+
+/-- ★ the documentation clause "When a job is suspended, it becomes the current job, and the previous
+    current job becomes the previous job", characterised exactly in the model.
+    `update_status` path (a job of the list goes from not suspended to suspended): always true.
+    `insert` path (a job is entered already suspended, e.g. by `handle_job_status` for a foreground
+    job): the new job is the current job IFF the current job was not suspended (or there was none),
+    and then the former current job is the previous job.  So the clause fails exactly when a
+    suspended job is inserted while the current job is suspended — the KNOWN FINDING of C12. -/
+theorem doc_suspended_becomes_current (s : JobList) (h : Inv s) :
+    (∀ pid idx st job, lookup s.pids pid = some idx → gets s.entries idx = some job →
+      job.isSuspended = false → st.isStopped = true →
+      (s.updateStatus pid st).2.currentJob = some idx ∧
+      ∀ c, s.currentJob = some c → c ≠ idx → (s.updateStatus pid st).2.previousJob = some c) ∧
+    (∀ job, insertPre s job.pid = true → job.isSuspended = true →
+      ((s.insert job).2.currentJob = some (s.insert job).1 ↔
+        ¬ ∃ c jc, s.currentJob = some c ∧ s.get c = some jc ∧ jc.isSuspended = true) ∧
+      ((s.insert job).2.currentJob = some (s.insert job).1 →
+        ∀ c, s.currentJob = some c → c ≠ (s.insert job).1 → (s.insert job).2.previousJob = some c)) := by
+  constructor
+  · intro pid idx st job hl hg hr hs
+    exact ⟨update_suspends_current s pid idx st job hl hg hr hs,
+      fun c hc hne => update_suspends_previous s pid idx st job hl hg hr hs c hc hne⟩
+  · intro job hpre hs
+    obtain ⟨G, hold, hcur, hprev⟩ := insert_shape s job h hpre
+    obtain ⟨A, B⟩ := insert_sel_core (gets s.entries) (gets (s.insert job).2.entries) s.cur s.prev (s.insert job).1
+      job G hold hs _ _ (exCur_eq s) (exPrev_eq s) (s.insert job).2.cur (s.insert job).2.prev hcur hprev
+    obtain ⟨S1, S2⟩ := insert_suspended_selection s job h hpre hs
+    -- the current job of `s`, if any, is `s.cur`
+    have curOf : ∀ c, s.currentJob = some c → c = s.cur ∧ (gets s.entries s.cur).isSome = true := by
+      intro c hc
+      unfold JobList.currentJob at hc
+      split at hc
+      · rename_i hh; cases hc; exact ⟨rfl, hh⟩
+      · cases hc
+    by_cases hsus : ∃ c jc, s.currentJob = some c ∧ s.get c = some jc ∧ jc.isSuspended = true
+    · obtain ⟨c, jc, hc, hgc, hsc⟩ := hsus
+      have hkeep := (S2 c jc hc hgc hsc).1
+      -- the slot of the new job did not hold a suspended job, so it is not `c`
+      have hne : c ≠ (s.insert job).1 := by
+        intro e
+        rcases hold with hn | ⟨old, ho, hos⟩
+        · rw [← e] at hn; unfold JobList.get at hgc; rw [hn] at hgc; cases hgc
+        · rw [← e] at ho; unfold JobList.get at hgc; rw [ho] at hgc; cases hgc; rw [hos] at hsc; cases hsc
+      constructor
+      · constructor
+        · intro hnew; rw [hkeep] at hnew; cases hnew; exact absurd rfl hne
+        · intro hno; exact absurd ⟨c, jc, hc, hgc, hsc⟩ hno
+      · intro hnew; rw [hkeep] at hnew; cases hnew; exact absurd rfl hne
+    · have hnot : ∀ c jc, s.currentJob = some c → s.get c = some jc → jc.isSuspended = false := by
+        intro c jc hc hgc
+        cases hsc : jc.isSuspended with
+        | false => rfl
+        | true => exact absurd ⟨c, jc, hc, hgc, hsc⟩ hsus
+      refine ⟨⟨fun _ => hsus, fun _ => S1 hnot⟩, ?_⟩
+      intro _ c hc hne
+      obtain ⟨e, hsome⟩ := curOf c hc
+      subst e
+      have := A (by
+        intro jc hjc
+        exact hnot s.cur jc hc hjc)
+      obtain ⟨p1, p2, p3⟩ := this.2.2 hsome hne
+      show (if (s.insert job).2.prev ≠ (s.insert job).2.cur ∧ (gets (s.insert job).2.entries (s.insert job).2.prev).isSome = true
+            then some (s.insert job).2.prev else none) = some s.cur
+      rw [if_pos ⟨p2, p3⟩, p1]
+
+/-- ★ `handle_job_status`: a process result that is `Stopped` inserts the job (job-controlled, under
+    the given name, in that state) and interrupts an interactive shell; any other result leaves the
+    table alone, and interrupts only for `SIGINT` in an interactive shell -/
+theorem hjs_table (s : JobList) (pid : Nat) (r : PState) (i : Bool) (name : Str) :
+    (r.isStopped = true →
+      handleJobStatus s pid r i name =
+        ((i, r.exitStatus), (s.insert { pid := pid, state := r, jc := true, name := name }).2)) ∧
+    (r.isStopped = false →
+      (handleJobStatus s pid r i name).2 = s ∧
+      ((handleJobStatus s pid r i name).1.1 = true ↔ i = true ∧ ∃ core, r = .signaled 2 core)) := by
+  unfold handleJobStatus
+  constructor
+  · intro hr; simp [hr]
+  · intro hr
+    simp only [hr, Bool.false_eq_true, if_false, true_and]
+    cases r <;> simp
+
+/-- ★ `jobs` whose report cannot be written reports the failure and does not touch the table
+    ("Remove finished jobs and mark reported jobs as reported only if there was no error") -/
+theorem jobs_closed (s : JobList) (args : List Str)
+    (h0 : (jobsBuiltin s args).1.status = 0) (hne : (jobsBuiltin s args).1.stdout ≠ []) :
+    jobsClosed s args = ({ status := 1, errs := ["stdout"] }, s) := by
+  unfold jobsClosed
+  simp [h0, hne]
+
+/-- ★ the interactive flag changes the result of `fg`, never the table -/
+theorem fg_interactive_table (s : JobList) (m : Bool) (outcome : PState) (args : List Str) :
+    (fgBuiltin s m true outcome args).2 = (fgBuiltin s m false outcome args).2 := by
+  unfold fgBuiltin
+  cases parseArgs [] args with
+  | none => rfl
+  | some r =>
+    obtain ⟨opts, operands⟩ := r
+    simp only
+    cases m with
+    | false => rfl
+    | true =>
+      simp only [Bool.not_true, Bool.false_eq_true, if_false]
+      split
+      · rfl
+      · rename_i index _
+        cases fgResume s index outcome with
+        | mk r s' => cases r <;> rfl
+
 /-! ### `wait` -/
 
 /-- ★ `wait` removes a job only by `job_status`: every slot is vacant afterwards or holds the job
@@ -416,7 +583,7 @@ theorem wait_job_status (s : JobList) (index : Nat) (job : Job) (hg : gets s.ent
 def builtinHistory : List Op :=
   [.insertJob 101 .running true "ab".toList, .insertJob 102 (.stopped 120) true "abc".toList,
    .insertJob 103 (.exited 3) true "b".toList, .jobs [], .bg true ["%-".toList],
-   .fg true (.stopped 116) [], .amp 104 true true "a".toList, .update 101 (.exited 0), .wait ["%1".toList]]
+   .fg true false (.stopped 116) [], .amp 104 true true "a".toList, .update 101 (.exited 0), .wait ["%1".toList]]
 
 example : PathPre JobList.empty builtinHistory := by
   simp [builtinHistory, PathPre]
